@@ -19,7 +19,7 @@ Out(j) ==
     [id     |-> j.id,
      n2     |-> N2(D),
      ode    |-> VToTerms(Ode(D)),
-     varsP  |-> VarsP(D), varsS |-> VarsS(D), varsIV |-> VarsIV(D),
+     varsP  |-> VarsP(D), varsS |-> VarsS(D), varsIV |-> VarsIV(D), varsFF |-> VarsP(D) \o FfVars(D),
      augP   |-> Opt(j, "augP",  VToTerms(AugP(D))),
      augS   |-> Opt(j, "augS",  VToTerms(AugS(D))),
      augIV  |-> Opt(j, "augIV", VToTerms(AugIV(D))),
